@@ -148,6 +148,19 @@ Definition view (w : writer) (m : matrix) : matrix := normalise w m.
 Definition after_exports (copies : bool) (ws : list writer) (m : matrix) : matrix :=
   fold_left (fun acc w => effect copies w acc) ws m.
 
+(* a history of exports AND in-place edits of the same object (an edit is any function on the matrix: the caller's code) *)
+Inductive step := SExport (w : writer) | SEdit (e : matrix -> matrix).
+Definition run_step (copies : bool) (m : matrix) (s : step) : matrix :=
+  match s with SExport w => effect copies w m | SEdit e => e m end.
+Definition run_steps (copies : bool) (steps : list step) (m : matrix) : matrix := fold_left (run_step copies) steps m.
+(* the same history on an object that is never exported *)
+Fixpoint edits_only (steps : list step) : list step :=
+  match steps with
+  | [] => []
+  | SExport _ :: r => edits_only r
+  | SEdit e :: r => SEdit e :: edits_only r
+  end.
+
 (* envelopes that exclude the findings on the unfixed tree *)
 Definition frame_names (m : matrix) : list (list Z) := map f_name m.
 Definition signal_names (m : matrix) : list Z := flat_map (fun f => map s_name (f_signals f)) m.
